@@ -99,13 +99,20 @@ Definition ex_layout : layout :=
                     NFile (L "broken.rs") Unparsable;
                     NFile (L "latin1.rs") NotUtf8;
                     NFile (L "notes.txt") NotUtf8];
-    NDir (L "targets") [NFile (L "c.rs") (Parsed [RFn (ex_fn "a" [[L "tauri"; L "command"]])])] ].
+    NDir (L "targets") [NFile (L "c.rs") (Parsed [RFn (ex_fn "a" [[L "tauri"; L "command"]])])];
+    (* symbolic links: to a regular file (counts, under the name of the link), to a directory,
+       to nothing, with a name that is not stem.rs, below target *)
+    NLink (L "shared.rs") (LFile (Parsed [RFn (ex_fn "shared" [[L "command"]])]));
+    NLink (L "dirlink.rs") LDir;
+    NLink (L "gone.rs") LDangling;
+    NLink (L "alias.txt") (LFile (Parsed [RFn (ex_fn "alias" [[L "command"]])]));
+    NDir (L ".git") [NLink (L "hook.rs") (LFile (Parsed [RFn (ex_fn "hook" [[L "command"]])]))] ].
 
 Example C03_ex_premises : layout_ok ex_layout = true.
 Proof. vm_compute. reflexivity. Qed.
 (* the same result for a root below target/ and .git/ *)
 Example C03_ex_result :
-  map (fun r => map wobs (emit (analyze (L r) ex_layout))) ["./proj/src/"; "/w/target/p/.git/src"]%string = repeat [(L "a", L "Promise<types.User>"); (L "b", L "Promise<types.User>"); (L "a", L "Promise<types.User>")] 2.
+  map (fun r => map wobs (emit (analyze (L r) ex_layout))) ["./proj/src/"; "/w/target/p/.git/src"]%string = repeat [(L "a", L "Promise<types.User>"); (L "b", L "Promise<types.User>"); (L "a", L "Promise<types.User>"); (L "shared", L "Promise<types.User>")] 2.
 Proof. vm_compute. reflexivity. Qed.
 Example C03_ex_isolated :
   walk [NFile (L "a.rs") (Parsed [RFn (ex_fn "a" [[L "command"]])]); NFile (L "b.rs") (Parsed [RFn (ex_fn "b" [[L "command"]])])]
